@@ -195,10 +195,10 @@ func vfCertKeysFor(o *vfOffer, ver uint16, auth string) []string {
 // ---- client sources ----
 
 type vfClientSrc struct {
-	Kind   string // "parrot", "randomized", "custom", "fingerprinted"
-	Name   string
-	ID     ClientHelloID
-	Spec   *ClientHelloSpec // applied via ApplyPreset when non-nil (ID is then HelloCustom); single use
+	Kind string // "parrot", "randomized", "custom", "fingerprinted"
+	Name string
+	ID   ClientHelloID
+	Spec *ClientHelloSpec // applied via ApplyPreset when non-nil (ID is then HelloCustom); single use
 	// SpecFn returns a FRESH spec per connection: ApplyPreset writes key shares and GREASE values into the spec's
 	// extension objects, and the library documents that a spec must not be shared between connections
 	SpecFn func() *ClientHelloSpec
@@ -573,7 +573,7 @@ type vfGridOpts struct {
 	// OnlySuccess: the property of the caller speaks about successful handshakes only; a failed handshake is
 	// counted (class) and the case dropped instead of being judged (judging it is C10's business)
 	OnlySuccess bool
-	Label    string
+	Label       string
 }
 
 // vfGridRun executes one grid case. It returns the finished pair when both handshakes succeeded and the
@@ -731,8 +731,41 @@ func vfGridRun(rt *rapid.T, st *vfStats, prop string, o vfGridOpts) *vfGridResul
 
 // vfGenTLS13Src draws a source whose hello carries key shares: a TLS 1.3 parrot or a randomized spec forced to 1.3.
 func vfGenTLS13Src(rt *rapid.T) vfClientSrc {
-	// parrots whose hello carries key shares, or a randomized spec forced to TLS 1.3
-	if rapid.IntRange(0, 9).Draw(rt, "kind") < 7 {
+	// parrots whose hello carries key shares, a randomized spec forced to TLS 1.3, or a parrot's spec whose key_share
+	// and supported_groups are replaced by a drawn list of up to five groups (several classical shares, hybrid anywhere)
+	kind := rapid.IntRange(0, 11).Draw(rt, "kind")
+	if kind >= 10 {
+		base := []ClientHelloID{HelloChrome_120, HelloFirefox_120, HelloChrome_102, HelloChrome_133, HelloIOS_14}[rapid.IntRange(0, 4).Draw(rt, "msbase")]
+		pool := []CurveID{X25519, CurveP256, CurveP384, CurveP521, X25519MLKEM768}
+		perm := rapid.Permutation(pool).Draw(rt, "msperm")
+		nShares := rapid.IntRange(1, 5).Draw(rt, "msshares")
+		nExtraGroups := rapid.IntRange(0, 5-nShares).Draw(rt, "msextra")
+		shares := append([]CurveID(nil), perm[:nShares]...)
+		groups := append([]CurveID(nil), perm[:nShares+nExtraGroups]...)
+		mk := func() *ClientHelloSpec {
+			spec, _ := UTLSIdToSpec(base)
+			var exts []TLSExtension
+			for _, e := range spec.Extensions {
+				switch e.(type) {
+				case *KeyShareExtension:
+					ks := &KeyShareExtension{}
+					for _, g := range shares {
+						ks.KeyShares = append(ks.KeyShares, KeyShare{Group: g})
+					}
+					exts = append(exts, ks)
+				case *SupportedCurvesExtension:
+					exts = append(exts, &SupportedCurvesExtension{Curves: append([]CurveID(nil), groups...)})
+				case PreSharedKeyExtension:
+				default:
+					exts = append(exts, e)
+				}
+			}
+			spec.Extensions = exts
+			return &spec
+		}
+		return vfClientSrc{Kind: "custom", Name: fmt.Sprintf("multishare(%s)%v", base.Str(), shares), ID: HelloCustom, SpecFn: mk}
+	}
+	if kind < 7 {
 		var cands []vfParrot
 		for _, p := range vfParrots {
 			spec, err := UTLSIdToSpec(p.ID)
@@ -753,4 +786,3 @@ func vfGenTLS13Src(rt *rapid.T) vfClientSrc {
 	src.ID.Weights.TLSVersMax_Set_VersionTLS13 = 1
 	return src
 }
-
